@@ -1,4 +1,5 @@
 import Rie.Proofs.Sys
+import Rie.Proofs.SysInv
 import Rie.Proofs.Payload
 
 /-!
@@ -68,6 +69,33 @@ theorem C01_renderer_is_current (s : State) (k c : Nat) (h : String) (hcur : s.c
     renderRuntime (continueInvoke s) = s!"200,id#{k},body={h},arn=ok,ctx=ctx{c}" := by
   simp only [continueInvoke, hcur, State.emit]
   simp [hok, renderRuntime]
+
+/-- **Exactly one outcome — whole runs.** Take any initial configuration and any sequence of ops
+    (invocations, API calls of the runtime and of extensions, process exits, resets, shutdowns,
+    restores, timer firings) under any scheduler choices `v`, the invocations carrying pairwise
+    distinct caller numbers. Then, counting the outcomes (`Out.caller`) emitted over the whole run:
+    no caller is answered twice; a caller is answered or still in flight exactly when it was
+    submitted; and no caller is both answered and still in flight. Proved as an invariant of every
+    reachable state (`Rie.Sys.Inv`, `inv_run`): one frame lemma per model function shows that only
+    `finishFlight` and the refusal of a second invocation emit an outcome, the former removing the
+    flight it answers. What is *not* proved here: that a call in flight is eventually answered
+    (that needs the environment to fire the armed timer — see `C05_timeout_armed`). -/
+theorem C01_one_outcome (s0 : State) (h0 : Initial s0) (ops : List (Nat × Op)) (hfresh : (submitted ops).Nodup) :
+    let r := run s0 [] ops
+    let answered := r.2 ++ doneOf r.1.out
+    answered.Nodup ∧
+    (∀ c, c ∈ submitted ops ↔ (c ∈ callers r.1 ∨ c ∈ answered)) ∧
+    (∀ c ∈ callers r.1, c ∉ answered) := by
+  have i := inv_run s0 ops (inv_initial s0 h0) (by simpa using hfresh)
+  simp only [List.nil_append] at i
+  exact ⟨i.once, i.sub, i.excl⟩
+
+-- non-vacuity: a healthy invocation, then a second caller refused while a third invocation is in flight
+example :
+    let ops : List (Nat × Op) := [(0, .invoke 0 5 "h"), (0, .rtNext), (0, .rtResponse (some 1) 2 "r" false), (0, .rtNext),
+                                  (3, .invoke 1 5 "h"), (1, .invoke 2 5 "h")]
+    let r := run {} [] ops
+    r.2 = [0] ∧ doneOf r.1.out = [2] ∧ callers r.1 = [1] ∧ submitted ops = [0, 1, 2] := by decide
 
 -- non-vacuity: two invocations in sequence on one instance, the second shorter than the first:
 -- each is delivered exactly, nothing of the first leaks into the second
